@@ -121,14 +121,23 @@ def tlapm(module, deps, timeout=900, threads=8):
     try:
         for m in [module] + list(deps):
             shutil.copyfile(os.path.join(SPEC, m + ".tla"), os.path.join(d, m + ".tla"))
-        try:
-            p = subprocess.run(["tlapm", "--threads", str(threads), "--cleanfp", module + ".tla"], cwd=d, stdout=subprocess.PIPE,
-                               stderr=subprocess.STDOUT, text=True, timeout=timeout)
-        except subprocess.TimeoutExpired:
-            raise TlcError(f"tlapm timeout after {timeout}s on {module}")
-        except FileNotFoundError:
-            raise TlcError("tlapm not found on PATH")
-        m = re.search(r"All (\d+) obligations? proved", p.stdout)
-        return (p.returncode == 0 and m is not None), (int(m.group(1)) if m else 0), p.stdout[-3000:]
+        # the back ends run under wall-clock timeouts: on a loaded machine (16 replay workers next to the provers) an obligation
+        # that takes 2 s alone can time out.  Timeouts are stretched, and a failed run is repeated with fewer threads and a larger
+        # factor (fingerprints of the proved obligations are kept between the attempts): a proof either goes through or it does not,
+        # the machine's load must not decide it.
+        out = ""
+        for attempt, (stretch, thr, clean) in enumerate(((4, threads, True), (12, max(2, threads // 2), False), (30, 2, False))):
+            try:
+                p = subprocess.run(["tlapm", "--threads", str(thr), "--stretch", str(stretch)] + (["--cleanfp"] if clean else []) + [module + ".tla"],
+                                   cwd=d, stdout=subprocess.PIPE, stderr=subprocess.STDOUT, text=True, timeout=timeout)
+            except subprocess.TimeoutExpired:
+                raise TlcError(f"tlapm timeout after {timeout}s on {module}")
+            except FileNotFoundError:
+                raise TlcError("tlapm not found on PATH")
+            out = p.stdout
+            m = re.search(r"All (\d+) obligations? proved", out)
+            if p.returncode == 0 and m is not None and int(m.group(1)) > 0:
+                return True, int(m.group(1)), out[-3000:]
+        return False, 0, out[-3000:]
     finally:
         shutil.rmtree(d, ignore_errors=True)
